@@ -262,3 +262,240 @@ pub fn cmd_run(args: &[String]) -> i32 {
     println!("{}", json!({"runs": runs, "events": events}));
     0
 }
+
+// ------------------------------------------------------------ MTGraph runs
+
+use rustradio::mtgraph::MTGraph;
+use rustradio::stream::StreamWait;
+use rustradio::verif::{Grant, Point};
+
+/// Wrapper with a unique thread/block name "b<id>".
+pub struct Named {
+    inner: Wrap,
+    name: String,
+}
+impl BlockName for Named {
+    fn block_name(&self) -> &str {
+        &self.name
+    }
+}
+impl BlockEOF for Named {
+    fn eof(&mut self) -> bool {
+        self.inner.eof()
+    }
+}
+impl Block for Named {
+    fn work(&mut self) -> rustradio::Result<BlockRet> {
+        self.inner.work()
+    }
+}
+
+fn grant_name(g: &Grant) -> &'static str {
+    match g {
+        Grant::Go => "go",
+        Grant::Timeout => "timeout",
+        Grant::Notified => "notified",
+    }
+}
+
+/// Chain src -> sync^(n-2) -> sink from VectorSource, AddConst, VectorSink.
+/// Returns blocks in chain order, the sink hook, and the stream ids.
+fn build_mt_chain(n: usize, total: usize) -> (Vec<Box<dyn Block + Send>>, Hook, Vec<usize>) {
+    let data: Vec<Big> = (1..=total as u64).map(Big::of).collect();
+    let mut blocks: Vec<Box<dyn Block + Send>> = Vec::new();
+    let mut ids = Vec::new();
+    let (b, mut prev) = VectorSource::new(data);
+    blocks.push(Box::new(b));
+    ids.push(StreamWait::verif_id(&prev));
+    for _ in 0..n.saturating_sub(2) {
+        let (b, o) = AddConst::new(prev, Big::of(1000));
+        blocks.push(Box::new(b));
+        ids.push(StreamWait::verif_id(&o));
+        prev = o;
+    }
+    let sink = VectorSink::new(prev, 1 << 30);
+    let hook = sink.hook();
+    blocks.push(Box::new(sink));
+    (blocks, hook, ids)
+}
+
+/// One MTGraph run under the controlled scheduler with a seeded random
+/// schedule. `sched` (if given) is a list of thread names to prefer in order.
+fn mt_run_one(cfg: &Value, out: &mut impl Write) -> usize {
+    let n = cfg["n"].as_u64().unwrap() as usize;
+    let total = cfg["total"].as_u64().unwrap() as usize;
+    let cap = cfg["cap"].as_u64().unwrap() as usize;
+    let seed = cfg["seed"].as_u64().unwrap_or(1);
+    let with_cancel = cfg["cancel"].as_bool().unwrap_or(false);
+    let order: Vec<usize> = cfg["order"].as_array().map(|a| a.iter().map(|k| k.as_u64().unwrap() as usize).collect())
+        .unwrap_or_else(|| (1..=n).collect());
+    verif::set_thread_stream_size(cap * 4096);
+    let (blocks, hook, ids) = build_mt_chain(n, total);
+    let mut g = MTGraph::new();
+    let tok = g.cancel_token();
+    let mut slots: Vec<Option<Box<dyn Block + Send>>> = blocks.into_iter().map(Some).collect();
+    for b in &order {
+        let inner = slots[b - 1].take().unwrap();
+        let inject = if cfg["fail"][0].as_u64() == Some(*b as u64) {
+            Inject::Fail(cfg["fail"][1].as_u64().unwrap() as usize)
+        } else {
+            Inject::None
+        };
+        let (w, _c) = Wrap::new(inner, *b, inject);
+        g.add(Box::new(Named { inner: w, name: format!("b{b}") }));
+    }
+    let ctl = verif::install_controller();
+    verif::trace_start();
+    let kinds_ref: Vec<String> = (0..n).map(|i| if i == 0 { "src_eof".to_string() } else if i == n - 1 { "sink".to_string() } else { "sync".to_string() }).collect();
+    let want = reference(&kinds_ref, total);
+    let hook2 = Hook2(hook);
+    let main = std::thread::spawn(move || {
+        verif::thread_start("main");
+        let res = catch(|| g.run());
+        let got: Vec<Option<u64>> = hook2.0.data().samples().iter().map(|s| s.val()).collect();
+        let prefix_ok = got.len() <= want.len() && got.iter().zip(want.iter()).all(|(a, b)| *a == Some(*b));
+        let outcome = match &res {
+            Ok(Ok(())) => "ok",
+            Ok(Err(_)) => "err",
+            Err(_) => "panic",
+        };
+        verif::emit(format!("\"ev\":\"mt_return\",\"outcome\":\"{outcome}\",\"got\":{},\"prefix_ok\":{prefix_ok},\"want\":{}", got.len(), want.len()));
+    });
+    while ctl.registered() < 1 {
+        std::thread::yield_now();
+    }
+    let canc = if with_cancel {
+        let h = std::thread::spawn(move || {
+            verif::thread_start("canc");
+            tok.cancel();
+        });
+        while ctl.registered() < 2 {
+            std::thread::yield_now();
+        }
+        Some(h)
+    } else {
+        None
+    };
+    writeln!(out, "{}", json!({"t": "-", "pt": "config", "g": "go", "n": n, "total": total, "cap": cap,
+        "fail": cfg["fail"], "cancel": with_cancel, "order": order, "streams": ids, "seed": seed, "evs": [], "exited": false, "b": 0})).unwrap();
+    let sched: Vec<Value> = cfg["sched"].as_array().cloned().unwrap_or_default();
+    let mut si = 0usize;
+    let mut rng = Rng::new(seed);
+    let stick = rng.below(4);
+    let timeout_bias = rng.below(3); // 0: timeouts rare, 2: timeouts eager
+    let mut last: Option<usize> = None;
+    let mut steps = 1;
+    let budget = 200_000;
+    loop {
+        let v = ctl.settle(1);
+        if v.is_empty() {
+            break;
+        }
+        let mut cands: Vec<(usize, Grant)> = Vec::new();
+        for (i, tv) in v.iter().enumerate() {
+            for gnt in &tv.enabled {
+                // A timeout is always possible; weight it by the bias so that
+                // schedules are neither all-timeouts nor timeout-free.
+                if *gnt == Grant::Timeout && timeout_bias == 0 && v.len() > 1 && rng.below(8) != 0 {
+                    continue;
+                }
+                cands.push((i, gnt.clone()));
+            }
+        }
+        if cands.is_empty() {
+            for (i, tv) in v.iter().enumerate() {
+                for gnt in &tv.enabled {
+                    cands.push((i, gnt.clone()));
+                }
+            }
+        }
+        if cands.is_empty() {
+            writeln!(out, "{}", json!({"t": "-", "pt": "deadlock", "g": "go", "evs": [], "exited": false, "b": 0,
+                "have": v.iter().map(|t| json!({"t": t.name, "pt": t.point.kind()})).collect::<Vec<_>>()})).unwrap();
+            steps += 1;
+            break;
+        }
+        let same: Vec<usize> = cands.iter().enumerate().filter(|(_, c)| Some(v[c.0].tid) == last).map(|(i, _)| i).collect();
+        let mut pick = if !same.is_empty() && rng.below(4) < stick { same[rng.below(same.len())] } else { rng.below(cands.len()) };
+        // A prescribed schedule (from the TLC transition graph) is followed as
+        // long as it lasts; if the real threads cannot follow it, that is
+        // recorded and the run stops.
+        if si < sched.len() {
+            let s = &sched[si];
+            si += 1;
+            let want_g = match s["g"].as_str().unwrap() {
+                "timeout" => Grant::Timeout,
+                "notified" => Grant::Notified,
+                _ => Grant::Go,
+            };
+            let want_name = if s["t"] == "b" { format!("b{}", s["b"]) } else { s["t"].as_str().unwrap().to_string() };
+            let found = v.iter().enumerate().find(|(_, t)| t.name == want_name).and_then(|(i, t)| {
+                let pt = match &t.point { Point::Named(x) => x.to_string(), p => p.kind() };
+                if pt == s["pt"].as_str().unwrap() && t.enabled.contains(&want_g) { Some(i) } else { None }
+            });
+            match found {
+                Some(i) => {
+                    cands.push((i, want_g));
+                    pick = cands.len() - 1;
+                }
+                None => {
+                    writeln!(out, "{}", json!({"t": "-", "pt": "diverged", "g": "go", "evs": [], "exited": false, "b": 0, "want": s,
+                        "have": v.iter().map(|t| json!({"t": t.name, "pt": t.point.kind(), "en": t.enabled.iter().map(grant_name).collect::<Vec<_>>()})).collect::<Vec<_>>()})).unwrap();
+                    steps += 1;
+                    si = sched.len();
+                }
+            }
+        }
+        let (vi, gnt) = cands[pick].clone();
+        let tv = v[vi].clone();
+        last = Some(tv.tid);
+        ctl.grant(tv.tid, gnt.clone());
+        let after = ctl.settle(1);
+        let exited = !after.iter().any(|t| t.tid == tv.tid);
+        let evs: Vec<Value> = verif::trace_drain().iter().map(|l| serde_json::from_str(l).unwrap()).collect();
+        let b: usize = tv.name.strip_prefix('b').and_then(|x| x.parse().ok()).unwrap_or(0);
+        let pt = match &tv.point {
+            Point::Named(x) => x.to_string(),
+            p => p.kind(),
+        };
+        writeln!(out, "{}", json!({"t": if b > 0 { "b".to_string() } else { tv.name.clone() }, "b": b, "pt": pt, "g": grant_name(&gnt), "evs": evs, "exited": exited})).unwrap();
+        steps += 1;
+        if steps > budget {
+            writeln!(out, "{}", json!({"t": "-", "pt": "budget", "g": "go", "evs": [], "exited": false, "b": 0})).unwrap();
+            break;
+        }
+    }
+    let _ = main.join();
+    if let Some(h) = canc {
+        let _ = h.join();
+    }
+    verif::remove_controller();
+    let _ = verif::trace_take();
+    steps
+}
+
+struct Hook2(Hook);
+// SAFETY: the hook is an Arc<Mutex<..>>; Big is plain data.
+unsafe impl Send for Hook2 {}
+
+/// mtgraph-run --configs FILE --out FILE
+pub fn cmd_mt_run(args: &[String]) -> i32 {
+    quiet_panics();
+    let file = arg_val(args, "--configs").expect("--configs");
+    let out = arg_val(args, "--out").expect("--out");
+    let f = std::io::BufReader::new(std::fs::File::open(&file).expect("open"));
+    let mut o = std::io::BufWriter::new(std::fs::File::create(&out).expect("create"));
+    let (mut runs, mut steps) = (0, 0);
+    for line in f.lines() {
+        let line = line.unwrap();
+        if line.trim().is_empty() {
+            continue;
+        }
+        let cfg: Value = serde_json::from_str(&line).expect("json");
+        steps += mt_run_one(&cfg, &mut o);
+        runs += 1;
+    }
+    o.flush().unwrap();
+    println!("{}", json!({"runs": runs, "steps": steps}));
+    0
+}
